@@ -4,17 +4,25 @@
     K makes a change and every input:  observe (exec P) = observe (exec (run_K P))   (same value, same exception type).
 
     What is proved here (all unbounded: every MiniPy expression, every environment):
-    for the five rewrite kernels modelled in Model/Rewrites.v, as written in the current source (table values in
-    Generated/Tables.v),  guard e rho -> eval rho (norm (rw e)) = eval rho (norm e)  with the guard explicit and decidable
-    (Spec/RewritesSpec.v), and just outside every conjunct of the guard a concrete program whose behaviour changes
-    ([changes]: fully parenthesised, well-formed, meaning differs).  [norm] is the tree CPython parses from the printed
-    text, so parentheses lost by the rewrite are part of the statement.
+    for the rewrite kernels modelled in Model/Rewrites.v, as written in the current source (table values in
+    Generated/Tables.v):   parses_as_built e -> parses_as_built (rw e) -> in_model (meaning rho e) = true -> guard e rho ->
+    eval rho (norm (rw e)) = eval rho (norm e),  with the guard explicit and decidable (Spec/RewritesSpec.v), and just
+    outside every conjunct of the guard a concrete program whose behaviour changes ([changes]).
+    [norm] is the tree CPython parses from the printed text; [parses_as_built t] (norm t = allpar t) says the text parses back
+    to the tree the codemod built: it holds for every tree printed with the parentheses Python's precedences need (the harness
+    feeds both fully and minimally parenthesised texts) and fails exactly when a replacement lost parentheses it needed.
+    [in_model]: the evaluator defines the original program (it declines identity of small values, non-int set elements, float
+    arithmetic, ordering of tuples/lists, generator objects, ...): without it a law could hold because both sides are
+    "OutOfModel".  The evaluator has exceptions but no other effects, so "effect-free" parts of the guards only speak
+    about raising; effects are exercised by the program families of the harness (side-effecting predicates etc.).
 
-    Why _partial: (i) MiniPy is a fragment of Python and its evaluator a model of CPython (validated against CPython on
-    every run, never proved); (ii) the other refactoring codemods named by the property (walrus-if, f-strings, logging,
-    imports, abc, resource leak, lock, module global, sql parameterization) have no model: the harness only searches
-    them; (iii) that the repaired folds/inversions never lose parentheses ([paren_safe (rw e)] for fully parenthesised
-    [e]) is a premise checked per case, not a theorem. *)
+    Why _partial: (i) MiniPy is a fragment of Python (no f-strings, statements, attribute access, arithmetic other than //,
+    user classes with comparison methods) and its evaluator a model of CPython (validated against CPython on every run,
+    never proved): e.g. use-set-literal needs no SEMANTIC guard on MiniPy, but inside an f-string replacement field the
+    display's `{` joins the field's `{` (finding kf_set_literal_fstring_braces, searched by the f-string family);
+    (ii) the other refactoring codemods named by the property have no model: the harness only searches them;
+    (iii) that the repaired folds/inversions never lose parentheses ([parses_as_built (rw e)]) is a premise checked per
+    case, not a theorem. *)
 From CM Require Import Model.MiniPy Model.PySem Model.Rewrites Spec.RewritesSpec Proofs.C08Lemmas Generated.Tables.
 From Coq Require Import String.
 
@@ -40,20 +48,17 @@ Theorem C08_generator_partial : C08_generator_statement generator_cfg_v.
 Proof. exact (C08_generator_all generator_cfg_v). Qed.
 Print Assumptions C08_generator_partial.
 
-(** use-set-literal: no guard at all. *)
+(** use-set-literal: no semantic guard on MiniPy expressions (see the header for what lies outside MiniPy). *)
 Theorem C08_set_literal :
-  forall rho e, paren_safe e = true -> paren_safe (rw_set_literal e) = true -> preserves rw_set_literal rho e.
+  forall rho e, parses_as_built e -> parses_as_built (rw_set_literal e) -> in_model (meaning rho e) = true -> preserves rw_set_literal rho e.
 Proof. exact C08_set_literal_all. Qed.
 Print Assumptions C08_set_literal.
 
-(** fix-hasattr-call: law unless `__call__` is set on the instance only (or hasattr has not exactly two arguments). *)
-Theorem C08_hasattr_partial :
-  forall rho e, paren_safe e = true -> paren_safe (rw_hasattr e) = true -> hasattr_guard rho e = true -> preserves rw_hasattr rho e.
-Proof. exact C08_hasattr_all. Qed.
+(** fix-hasattr-call: law unless `__call__` is set on the instance only; the pinned form also rewrites hasattr calls that do
+    not have exactly two arguments (those raise TypeError, `callable(x)` does not). *)
+Theorem C08_hasattr_partial : C08_hasattr_statement hasattr_cfg_v.
+Proof. exact (C08_hasattr_all hasattr_cfg_v). Qed.
 Print Assumptions C08_hasattr_partial.
-Theorem C08_hasattr_refuted : changes rw_hasattr w_hasattr_env w_hasattr.
-Proof. exact C08_hasattr_refuted_w. Qed.
-Print Assumptions C08_hasattr_refuted.
 
 (** Non-vacuity: each guard holds on an input that the kernel really changes. *)
 Definition ex_env : env := [(0%N, VStr (s "xy")); (2%N, VInt 0); (3%N, VStr (s "x")); (4%N, VObj 1 [call_attr] [])].
@@ -78,5 +83,36 @@ Proof. vm_compute. repeat split; try reflexivity. discriminate. Qed.
 (** hasattr(v4, "__call__") with __call__ defined by the class *)
 Example C08_hasattr_example :
   let e := ECall BHasattr [EName 4; call_lit] in
-  hasattr_guard ex_env e = true /\ rw_hasattr e <> e /\ meaning ex_env e = Val (VBool true).
+  hasattr_guard hasattr_cfg_v ex_env e = true /\ rw_hasattr hasattr_cfg_v e <> e /\ meaning ex_env e = Val (VBool true).
+Proof. vm_compute. repeat split; try reflexivity. discriminate. Qed.
+
+(** fix-empty-sequence-comparison (`x == []` -> `not x`, `x != []` -> `bool(x)` / bare `x` as the test of an `if`):
+    law when every rewritten comparison compares a value of the display's own type (list with [], tuple with ()) or a
+    value whose evaluation raises; the observation of an `if` test is its truth value.  Refuted for a tuple / an int
+    compared with [] (the codemod cannot know the type: by design, class kf_empty_seq_other_type) and, pinned form, for
+    the parentheses of the replaced comparison. *)
+Theorem C08_empty_seq_partial : C08_empty_seq_statement empty_seq_cfg_v.
+Proof. exact (C08_empty_seq_all empty_seq_cfg_v). Qed.
+Print Assumptions C08_empty_seq_partial.
+Example C08_empty_seq_example :
+  let rho := [(1%N, VList [VInt 1]); (2%N, VTuple [])] in
+  let e := EBool true BAnd (ECmp true (EName 1) [(NotEq, EList [])]) (ECmp true (ETuple []) [(Eq, EName 2)]) in
+  empty_seq_guard empty_seq_cfg_v false rho e = true /\ empty_seq_file empty_seq_cfg_v false e <> e /\
+  meaning rho e = Val (VBool true) /\ paren_safe (empty_seq_file empty_seq_cfg_v false e) = true.
+Proof. vm_compute. repeat split; try reflexivity. discriminate. Qed.
+
+(** literal-or-new-object-identity (`x is <literal>` -> `x == <literal>`): law when `is` and `==` agree on the operands of
+    every rewritten comparison (e.g. None / an object / a type against a display); refuted for `True is 1`
+    (the codemod changes the meaning on purpose: class kf_identity_differs). *)
+Theorem C08_identity_partial :
+  forall rho e, parses_as_built e -> parses_as_built (rw_identity e) -> in_model (meaning rho e) = true -> identity_guard rho e = true -> preserves rw_identity rho e.
+Proof. exact C08_identity_all. Qed.
+Print Assumptions C08_identity_partial.
+Theorem C08_identity_refuted : changes rw_identity [] w_id_bool.
+Proof. exact C08_identity_refuted_w. Qed.
+Print Assumptions C08_identity_refuted.
+Example C08_identity_example :
+  let rho := [(1%N, VNone)] in
+  let e := ENot true (ECmp true (EName 1) [(Is, EList [ci 1])]) in
+  identity_guard rho e = true /\ rw_identity e <> e /\ meaning rho e = Val (VBool true).
 Proof. vm_compute. repeat split; try reflexivity. discriminate. Qed.
